@@ -347,9 +347,14 @@ def h_thread(n):
         def processor(out_edges, in_edges):
             graph = ig.IntronGraph.__new__(ig.IntronGraph)
             graph.outgoing_edges, graph.incoming_edges = out_edges, in_edges
-            pp = gbmc.IntronPathProcessor.__new__(gbmc.IntronPathProcessor)
-            pp.params, pp.intron_graph = Params(), graph
-            pp.params.apa_delta, pp.params.delta = apa, delta
+            graph.intron_collector = Params()
+            graph.intron_collector.clustered_introns = {}
+            prm = Params()
+            prm.apa_delta, prm.delta = apa, delta
+            real_sets = (graph.outgoing_edges, graph.incoming_edges)
+            graph.outgoing_edges, graph.incoming_edges = {}, {}          # the real constructor only collects the vertex universe from them
+            pp = gbmc.IntronPathProcessor(prm, graph)
+            graph.outgoing_edges, graph.incoming_edges = real_sets
             return pp
         res = []
         for which in ("order_a", "order_b"):
